@@ -599,6 +599,19 @@ func (in *interp) invoke(caller *frame, fn *funcInfo, this *object, args []value
 		return ret
 	}
 
+	// C10 "pure methods modify nothing": around every call of a function
+	// without an effect mark the receiver (fields, arrays, sub-objects, magic)
+	// and the memory behind every slice / array / I/O argument are hashed; a
+	// difference after the call is a purity event.
+	if fn.effect.Pure() && in.monitoring() {
+		before := in.purityHash(this, args)
+		defer func() {
+			if after := in.purityHash(this, args); after != before {
+				in.event(Event{Prop: "C10", Kind: "pure-method-modified-state", Node: fn.recv.name + "." + fn.name, Line: fn.node.Line(),
+					Values: fmt.Sprintf("receiver/argument memory hash %016x before, %016x after", before, after)})
+			}
+		}()
+	}
 	// C01 "never recurses": a function entered while an activation of it is
 	// still on the call stack. The event is raised once per function; the
 	// re-entrant call is not executed (it returns the zero value), so that the
@@ -800,4 +813,82 @@ type eventKey struct {
 
 func (in *interp) nodeText(fr *frame, n *a.Expr) string {
 	return strconv.Itoa(int(fr.line)) + ": " + n.Str(in.p.tm)
+}
+
+// purityHash folds everything a callee could reach through its receiver and
+// its arguments into one hash.
+func (in *interp) purityHash(this *object, args []value) uint64 {
+	h := uint64(0xcbf29ce484222325)
+	mix := func(x uint64) {
+		for i := 0; i < 8; i++ {
+			h ^= x & 0xFF
+			h *= 0x100000001b3
+			x >>= 8
+		}
+	}
+	seenMem := map[*mem]bool{}
+	hashMem := func(m *mem) {
+		if m == nil || seenMem[m] {
+			return
+		}
+		seenMem[m] = true
+		for _, c := range m.b {
+			mix(uint64(c))
+		}
+		for _, w := range m.w {
+			mix(w)
+		}
+	}
+	var hashVal func(v value, depth int)
+	var hashObj func(o *object, depth int)
+	hashVal = func(v value, depth int) {
+		mix(uint64(v.k))
+		switch v.k {
+		case vkNum, vkBool:
+			if v.n.b != nil {
+				for _, c := range v.n.b.Bytes() {
+					mix(uint64(c))
+				}
+			} else {
+				mix(v.n.u)
+				if v.n.neg {
+					mix(1)
+				}
+			}
+		case vkStatus:
+			for _, c := range []byte(v.s) {
+				mix(uint64(c))
+			}
+		case vkSlice:
+			hashMem(v.sl.m)
+			mix(uint64(v.sl.off))
+			mix(uint64(v.sl.n))
+		case vkArray:
+			hashMem(v.arr.m)
+		case vkIO:
+			if v.io != nil {
+				hashMem(v.io.m)
+				mix(uint64(v.io.ri))
+				mix(uint64(v.io.wi))
+				mix(v.io.pos)
+			}
+		case vkObj:
+			hashObj(v.obj, depth+1)
+		}
+	}
+	hashObj = func(o *object, depth int) {
+		if o == nil || depth > 6 {
+			return
+		}
+		mix(uint64(o.magic))
+		mix(uint64(o.activeCo))
+		for i := range o.fields {
+			hashVal(o.fields[i].v, depth)
+		}
+	}
+	hashObj(this, 0)
+	for _, a := range args {
+		hashVal(a, 0)
+	}
+	return h
 }
